@@ -1,5 +1,6 @@
 import FloVerif.Driver.C05
 import FloVerif.Driver.C18
+import FloVerif.Driver.C17
 /-!
 `fvdriver`: reads correspondence transcripts (`<prop> <op> <stream> <inputs…> | <impl outputs…>`) on stdin,
 evaluates the model on the same inputs and prints one `DIFF …` line per disagreement and a `SUMMARY` line.
@@ -9,6 +10,8 @@ open Driver
 def dispatch (prop op stream : String) (ins outs : List String) : List C05.Out :=
   match prop with
   | "C05" => C05.handle op stream ins outs
+  | "C17" => (C17.handle op ins outs).map fun o =>
+      { field := o.field, cmp := if o.ok then .same 0 else .diff o.msg, fbit := none }
   | "C18" => (C18.handle op ins outs).map fun o =>
       { field := o.field, cmp := if o.ok then .same 0 else .diff o.msg, fbit := none }
   | _ => [{ field := "unknown-property " ++ prop, cmp := .diff "driver does not know this property", fbit := none }]
